@@ -158,4 +158,89 @@ theorem call_export_indirect_correct (p : Nat) (hp4 : p = 4 ∨ p = 8) (canon : 
         simp only [List.append_nil, List.cons_append, List.nil_append, execStmts, hci, hde, Option.bind_some]
         simp [exec, hrs, execOp, Spec.lowerOpt]
 
+theorem addrStable_rp (env : Env) (m : Mem) (n addr : Nat) (sz al : Off)
+    (h : env.rps[n]? = some addr) : AddrStable env m (.rp n sz al) addr := by
+  intro fs ls
+  simp [eval, Env.extend, Env.withLets, h]
+
+/-- shape of the import glue: flat parameters, result through the return area -/
+theorem call_import_retptr_shape (canon : Ty → Bool) (f : Func) (t : Ty) (hres : f.result = some t)
+    (hflat : (flattenList f.params).length ≤ 16) (hrflat : (flatten t).length > 1)
+    (ss : List Stmt) (h : call canon .guestImport true false f = .ok ss) :
+    let retArea := Expr.rp 0 (recordSizeOff [t]) (recordAlignOff [t])
+    let cw := Op.callWasm (flattenList f.params ++ [.ptr]) []
+    ∃ (s0 : List Stmt) (stack0 : List Expr) (r : Expr),
+      lowerParams ⟨canon, false⟩ f.params 0 = .ok (s0, stack0) ∧
+      load ⟨canon, false⟩ 0 t retArea (Off.zero + Off.mk 0 0) = .ok r ∧
+      ss = s0 ++ [Stmt.eff cw (stack0 ++ [retArea]) []] ++ [Stmt.eff (.flush 1) [r] []]
+        ++ [Stmt.eff (.ret 1) [.res 0 (.flush 1) [r]] []] := by
+  intro retArea cw
+  have hsig : wasmSignature .guestImport f = ⟨flattenList f.params ++ [.ptr], [], false, true⟩ := by
+    have h1 : ¬ (flattenList f.params).length > 16 := by omega
+    simp [wasmSignature, maxFlatParams, maxFlatResults, h1, hres, flattenOpt, hrflat, Variant.isExport]
+  cases hlp : lowerParams ⟨canon, false⟩ f.params 0 with
+  | error e => simp [call, hsig, hlp, Variant.isExport, bind, Except.bind] at h
+  | ok r0 =>
+    obtain ⟨s0, stack0⟩ := r0
+    have hlen := lowerParams_length _ _ _ _ _ hlp
+    cases hl : load ⟨canon, false⟩ 0 t retArea (Off.zero + Off.mk 0 0) with
+    | error e =>
+      simp [call, hsig, hlp, hres, hlen, Variant.isExport, bind, Except.bind, pure, Except.pure, optTys, loadFields,
+        fieldOffs, fieldOffsets, alignTo_zero, retArea, hl] at h
+    | ok r =>
+      refine ⟨s0, stack0, r, rfl, rfl, ?_⟩
+      simp [call, hsig, hlp, hres, hlen, Variant.isExport, bind, Except.bind, pure, Except.pure, optTys, loadFields,
+        fieldOffs, fieldOffsets, alignTo_zero, retArea, hl, resN] at h
+      simp [← h, cw, retArea]
+
+/-- **Import glue, result through the return area.**  For an imported function whose parameters are
+memory-free and passed flat and whose result (of ANY type) needs more than one flat slot: the glue
+performs exactly one core call whose operands are the canonical flat lowering of the arguments
+followed by the return-area pointer, and returns exactly the value the canonical ABI `load`s from
+the return area in the memory the callee left (stuck exactly when the spec traps). -/
+theorem call_import_retptr_correct (p : Nat) (hp4 : p = 4 ∨ p = 8) (canon : Ty → Bool) (f : Func) (t : Ty)
+    (hres : f.result = some t) (vals : List Val) (retAddr : Nat) (s0 : MSt)
+    (hm : memFreeAll f.params = true) (ht : hasTys f.params vals = true)
+    (hflat : (flattenList f.params).length ≤ 16) (hrflat : (flatten t).length > 1)
+    (ss : List Stmt) (h : call canon .guestImport true false f = .ok ss) :
+    let env : Env := { p, args := vals.map MV.v, rps := [retAddr] }
+    let args := (specLowerAll p f.params vals {}).1.map MV.c ++ [MV.c ⟨ptrFT p, retAddr⟩]
+    (execStmts env s0 ss).map (fun r => (r.2.calls, r.2.freed, r.2.st)) =
+      (Spec.load p s0.st.mem t retAddr).map fun rv =>
+        (("Return", [MV.v rv]) :: ("CallWasm", args) :: s0.calls, s0.freed, s0.st) := by
+  intro env args
+  have ⟨st0, stack0, r, hlp, hl, hss⟩ := call_import_retptr_shape canon f t hres hflat hrflat ss h
+  have ⟨hs0, hargs, _⟩ := lowerParams_sound p hp4 ⟨canon, false⟩ env s0.st.mem {} rfl rfl f.params vals 0 st0 stack0 hm ht
+    (by intro j hj; simp [env, hj]) hlp
+  subst hs0
+  subst hss
+  have hrp : eval env s0.st.mem (Expr.rp 0 (recordSizeOff [t]) (recordAlignOff [t])) = some (.c ⟨ptrFT p, retAddr⟩) := by
+    simp [eval, env]
+  have hcall : exec env s0 (Stmt.eff (Op.callWasm (flattenList f.params ++ [.ptr]) [])
+        (stack0 ++ [Expr.rp 0 (recordSizeOff [t]) (recordAlignOff [t])]) []) =
+      some (env.bind (Op.callWasm (flattenList f.params ++ [.ptr]) [])
+          (stack0 ++ [Expr.rp 0 (recordSizeOff [t]) (recordAlignOff [t])]) [],
+        { s0 with calls := ("CallWasm", args) :: s0.calls }) := by
+    have := evalList_append env s0.st.mem stack0 [Expr.rp 0 (recordSizeOff [t]) (recordAlignOff [t])] _ [.c ⟨ptrFT p, retAddr⟩]
+      hargs (by simp [hrp])
+    simp [exec, this, execOp, env, args]
+  have hst : AddrStable env s0.st.mem (Expr.rp 0 (recordSizeOff [t]) (recordAlignOff [t])) retAddr :=
+    addrStable_rp env _ 0 retAddr _ _ (by simp [env])
+  have hr := load_sound p hp4 ⟨canon, false⟩ t 0 _ _ env s0.st.mem retAddr r rfl rfl hst hl
+  simp only [Off.at_add, Off.zero_at, Nat.zero_add] at hr
+  have h00 : (Off.mk 0 0).at p = 0 := by simp [Off.at]
+  rw [h00, Nat.add_zero] at hr
+  simp only [List.nil_append, List.singleton_append, List.cons_append, List.append_assoc, execStmts, hcall, Option.bind_some]
+  have hr' := hr ((env.bind (Op.callWasm (flattenList f.params ++ [.ptr]) [])
+          (stack0 ++ [Expr.rp 0 (recordSizeOff [t]) (recordAlignOff [t])]) []).lets)
+  cases hld : Spec.load p s0.st.mem t retAddr with
+  | none =>
+    rw [hld] at hr'
+    simp [exec, Env.withLets, Env.bind] at hr' ⊢
+    simp [hr']
+  | some rv =>
+    rw [hld] at hr'
+    simp [exec, Env.withLets, Env.bind] at hr' ⊢
+    simp [hr', execOp, eval, Env.bind]
+
 end Witverif.Abi
